@@ -20,6 +20,8 @@ pub struct Norm {
     pub index_recv: Vec<String>,
     pub copied_to_map: bool,
     pub opaque_into: bool,
+    pub collect_as_set: Vec<String>,
+    pub await_yields: Option<String>,
     pub drop_calls: Vec<String>,
     pub opaque_macros: Vec<String>,
     pub rename_calls: Vec<(String, String)>,
@@ -347,6 +349,8 @@ impl Norm {
             index_recv: strs("index_recv"),
             copied_to_map: req["copied_to_map"].as_bool().unwrap_or(false),
             opaque_into: req["opaque_into"].as_bool().unwrap_or(false),
+            collect_as_set: strs("collect_as_set"),
+            await_yields: req["await_yields"].as_str().map(|x| x.to_string()),
             drop_calls: strs("drop_calls"),
             opaque_macros: strs("opaque_macros"),
             rename_calls: req["rename_calls"]
@@ -732,6 +736,16 @@ impl VisitMut for Norm {
             if is_set {
                 if let Some(init) = &mut l.init {
                     if let Expr::MethodCall(mc) = &*init.expr {
+                        // N8j (set form): `let X: Set<T> = ITER.filter_map(|p| B).collect();` => insert loop
+                        if mc.method == "collect" && mc.args.is_empty() {
+                            if let Some(ne) = filter_map_collect_loop(&mc.receiver, true, &mut self.tmp_counter) {
+                                let sp = mc.method.span();
+                                *init.expr = ne;
+                                self.log("N8j-filter_map-collect-to-set-loop", sp);
+                            }
+                        }
+                    }
+                    if let Expr::MethodCall(mc) = &*init.expr {
                         if mc.method == "collect" && mc.args.is_empty() && is_copied_iter(&mc.receiver) {
                             if let Expr::MethodCall(inner) = &*mc.receiver {
                                 let sp = mc.method.span();
@@ -745,6 +759,21 @@ impl VisitMut for Norm {
                                 });
                                 *init.expr = ne;
                                 self.log("N8h-copied-collect-to-set-loop", sp);
+                            }
+                        }
+                    }
+                }
+            }
+        }
+        if let Pat::Ident(pi) = &l.pat {
+            if self.collect_as_set.iter().any(|n| pi.ident == n) {
+                if let Some(init) = &mut l.init {
+                    if let Expr::MethodCall(mc) = &*init.expr {
+                        if mc.method == "collect" && mc.args.is_empty() {
+                            if let Some(ne) = filter_map_collect_loop(&mc.receiver, true, &mut self.tmp_counter) {
+                                let sp = mc.method.span();
+                                *init.expr = ne;
+                                self.log("N8j-filter_map-collect-to-set-loop", sp);
                             }
                         }
                     }
@@ -863,6 +892,20 @@ impl VisitMut for Norm {
                     *l.expr = ne;
                     self.log("N7g-option-map-under-some-pattern", sp);
                 }
+            }
+        }
+        // N10b (option await_yields=NAME): a suspension point is a yield to the other tasks of the single-threaded server: `E.await` =>
+        // `{ let a = E; hq_yield(&mut *NAME); hq_ready(a) }` - NAME is the handle of the shared state (its ghost epoch advances, its
+        // content is arbitrary afterwards), `hq_ready` is the stand-in future's output
+        if let Expr::Await(aw) = e {
+            if let Some(name) = &self.await_yields {
+                let sp = aw.await_token.span;
+                let base = (*aw.base).clone();
+                let nm = Ident::new(name, Span::call_site());
+                let a = self.fresh("aw");
+                let ne: Expr = parse_quote!({ let #a = #base; hq_yield(&mut *#nm); hq_ready(#a) });
+                *e = ne;
+                self.log("N10b-await-as-yield", sp);
             }
         }
         // N8g4 (pre-order): the map entry API used as a match,
@@ -2203,6 +2246,43 @@ pub fn needed_lets(slice: &[Stmt], ctx: &[Local], params: &[String]) -> Vec<Loca
 
 /// N11: keep a contiguous statement range of the top-level block, named by two anchor strings
 /// (substring match on the token text of a statement, whitespace-insensitive).
+/// N8j helper: `ITER.filter_map(|p| B)` (the receiver of `.collect()`) as a loop that pushes / inserts the `Some` results
+fn filter_map_collect_loop(recv: &Expr, as_set: bool, counter: &mut usize) -> Option<Expr> {
+    if let Expr::MethodCall(inner) = recv {
+        if inner.method == "filter_map" && inner.args.len() == 1 {
+            if let Expr::Closure(c) = &inner.args[0] {
+                if c.inputs.len() == 1 && !body_has_return(&c.body) {
+                    let it = &inner.receiver;
+                    let pat = match c.inputs[0].clone() {
+                        Pat::Type(pt) => *pt.pat,
+                        p => p,
+                    };
+                    let body = &c.body;
+                    *counter += 1;
+                    let acc = Ident::new(&format!("__hq_acc{}", counter), Span::call_site());
+                    *counter += 1;
+                    let v = Ident::new(&format!("__hq_v{}", counter), Span::call_site());
+                    let ne: Expr = if as_set {
+                        parse_quote!({
+                            let mut #acc = Set::new();
+                            for #pat in #it { match #body { Some(#v) => { #acc.insert(#v); } None => {} } }
+                            #acc
+                        })
+                    } else {
+                        parse_quote!({
+                            let mut #acc = Vec::new();
+                            for #pat in #it { match #body { Some(#v) => { #acc.push(#v); } None => {} } }
+                            #acc
+                        })
+                    };
+                    return Some(ne);
+                }
+            }
+        }
+    }
+    None
+}
+
 /// N18b: see the retain rule
 fn elim_closure_returns(body: &Expr) -> Option<Expr> {
     fn elim(stmts: &[Stmt]) -> Option<Vec<Stmt>> {
